@@ -20,6 +20,9 @@ def r7(ctx):
 
 
 RULES = {
+    # what the writer puts under rangeMappings is serialize_range_mappings of the map as it is now (no memo of an earlier encode)
+    "C07.R9": lambda ctx: encrules.optional_keys(ctx, "C07.R9"),
+    "C07.RG": lambda ctx: __import__("rules.foundations", fromlist=["x"]).no_global_state(ctx, "C07.RG"),
     # range offsets are computed on the section-relative position: the index delegation must not distort it
     "C07.R8": lambda ctx: __import__("rules.bldrules", fromlist=["x"]).index_lookup(ctx, "C07.R8"),
     "C07.RL": lambda ctx: __import__("rules.common", fromlist=["x"]).loop_exit_rule(ctx, "C07.RL", {'encoder::serialize_range_mappings': 1, 'encoder::encode_rmi': 0, 'decoder::decode_rmi': 0}),
